@@ -21,25 +21,31 @@ package packet
 //@ pred udpAt(h UDPHeader, b []byte) = h.SrcPort == b[0]*256 + b[1] && h.DstPort == b[2]*256 + b[3]
 
 //@ func NewPacket
+//@   names _
 
 //@ func decodeTCP
+//@   names b _ _
 //@   ensures len(b) < 20 <==> err != nil
 //@   ensures err == nil ==> tcpAt(result, b)
 
 //@ func decodeUDP
+//@   names b _ _
 //@   ensures len(b) < 8 <==> err != nil
 //@   ensures err == nil ==> udpAt(result, b)
 
 //@ func decodeICMP
+//@   names b _ _
 //@   ensures len(b) < 5 <==> err != nil
 //@   ensures err == nil ==> result.Type == b[0] && result.Code == b[1] && sameview(result.RestHeader, b[4:])
 
 //@ func decodeIEEE802
+//@   names b _ _ d hwAddrFmt
 //@   ensures len(b) < 14 <==> err != nil
 //@   ensures err == nil ==> result.EtherType == b[12]*256 + b[13] && result.Vlan == 0
 //@   ensures err == nil && result.EtherType != 33024 ==> result.DstMAC == macText(b[0], b[1], b[2], b[3], b[4], b[5]) && result.SrcMAC == macText(b[6], b[7], b[8], b[9], b[10], b[11])
 
 //@ func (*Packet).decodeIPv4Header
+//@   names p _ src dst
 //@   ensures len(old(p.data)) < 20 <==> err != nil
 //@   ensures err == nil ==> isboxed(p.L3, IPv4Header) && ipv4At(unbox(p.L3, IPv4Header), old(p.data)) && p.data == old(p.data)[20:]
 //@   ensures err != nil ==> p.data == old(p.data) && p.L3 == old(p.L3)
@@ -47,6 +53,7 @@ package packet
 //@   modifies p.L3, p.data
 
 //@ func (*Packet).decodeIPv6Header
+//@   names p _ src dst
 //@   ensures len(old(p.data)) < 40 <==> err != nil
 //@   ensures err == nil ==> isboxed(p.L3, IPv6Header) && ipv6At(unbox(p.L3, IPv6Header), old(p.data)) && p.data == old(p.data)[40:]
 //@   ensures err != nil ==> p.data == old(p.data) && p.L3 == old(p.L3)
@@ -56,6 +63,7 @@ package packet
 //@ spec l4proto(p Packet) mathint = isboxed(p.L3, IPv4Header) ? unbox(p.L3, IPv4Header).Protocol : (isboxed(p.L3, IPv6Header) ? unbox(p.L3, IPv6Header).NextHeader : 0 - 1)
 
 //@ func (*Packet).decodeNextLayer
+//@   names p _ proto len icmp err tcp err udp err
 //@   ensures p.L2 == old(p.L2) && p.L3 == old(p.L3)
 //@   ensures (l4proto(old(p)) == 1 || l4proto(old(p)) == 58) && len(old(p.data)) >= 5 ==> err == nil && isboxed(p.L4, ICMP)
 //@       && unbox(p.L4, ICMP).Type == old(p.data)[0] && unbox(p.L4, ICMP).Code == old(p.data)[1] && sameview(unbox(p.L4, ICMP).RestHeader, old(p.data)[4:]) && p.data == old(p.data)[4:]
@@ -70,6 +78,7 @@ package packet
 // Ethernet II / 802.1Q: with a tag (TPID 0x8100) the frame needs 18 octets, the VLAN id word is
 // octets 14..15 and the real EtherType octets 16..17.
 //@ func (*Packet).decodeEthernet
+//@   names p _ d err vlan
 //@   ensures len(old(p.data)) < 14 ==> err != nil
 //@   ensures len(old(p.data)) >= 14 && old(p.data)[12]*256 + old(p.data)[13] != 33024 ==> err == nil && p.L2.EtherType == old(p.data)[12]*256 + old(p.data)[13] && p.L2.Vlan == 0
 //@       && p.L2.DstMAC == macText(old(p.data)[0], old(p.data)[1], old(p.data)[2], old(p.data)[3], old(p.data)[4], old(p.data)[5])
@@ -86,10 +95,12 @@ package packet
 //@   opt unreachable cover.ret.2 cover.ret.4   // decodeIEEE802 cannot fail here: the length was checked just before
 
 //@ func (*Packet).decodeEthernetHeader
+//@   names p _ err
 //@   ensures err == nil ==> (p.L2.EtherType == 2048 && isboxed(p.L3, IPv4Header)) || (p.L2.EtherType == 34525 && isboxed(p.L3, IPv6Header))
 //@   modifies p.L2, p.L3, p.L4, p.data
 
 //@ func (*Packet).Decoder
+//@   names p data protocol _ _ err
 //@   ensures result == p
 //@   ensures protocol != 1 && protocol != 11 && protocol != 12 ==> err != nil
 //@   ensures protocol == 11 && len(data) >= 20 && data[9] == 6 && len(data) >= 40 ==> err == nil && isboxed(p.L3, IPv4Header) && ipv4At(unbox(p.L3, IPv4Header), data)
